@@ -5,19 +5,25 @@
   connection_check_timedout, connection_get_wait, MHD_update_last_activity_,
   MHD_set_connection_option(TIMEOUT), internal_suspend_connection_, resume_suspended_connections,
   new_connection_process_, cleanup_connection, MHD_get_timeout64 and the timeout scans of the
-  select and epoll loops.  `Variant.current` is regenerated from the tree under test on every run
+  select and epoll loops.  The clock of a history is an arbitrary sequence of forward and backward
+  steps; the ghost field `back` of the model is the distance of the clock from the highest value it has
+  shown so far (`clock_displacement`, `clock_highWater`) and "small backward jumps" means
+  `back ≤ jumpBackLimit` (5000 ms, the tolerance of `connection_check_timedout`) in the state considered.
+  Idle time is measured on the clock: `now - last_activity`, 0 while the clock is behind the stamp.
+  `Variant.current` is regenerated from the tree under test on every run
   (behaviour probes on the real code); the history theorems hold for the repaired behaviour and
   `current_is_repaired` is the obligation that fails on a tree without the repairs.
   The `asIs_*` theorems are kernel-checked witnesses of what the unrepaired code does.
 -/
-import Mhd.Proofs.TmoCompleteSel
+import Mhd.Proofs.TmoClock
+import Mhd.Proofs.TmoConv
 
 namespace Mhd.C10
 open Mhd.Tmo Mhd.Gen.Tmo
 
-/-! ### the tree under test shows the repaired behaviour (F11, F11b, F11c, F11d) -/
+/-! ### the tree under test shows the repaired behaviour (F11, F11b, F11c, F11d, F11e) -/
 
-theorem current_is_repaired : Fixed Variant.current := ⟨rfl, rfl, rfl, rfl⟩
+theorem current_is_repaired : Fixed Variant.current := ⟨rfl, rfl, rfl, rfl, rfl⟩
 
 /-! ### the close decision and the wait computation (all `uint64_t` inputs) -/
 
@@ -65,46 +71,82 @@ theorem bigJumpBack_closes (now : Nat) (c : Conn) (h1 : now < c.la) (h2 : jumpBa
     (h0 : c.tmo ≠ 0) : checkTimedOut now c = true :=
   checkTimedOut_bigJumpBack now c h1 h2 h3 hla ht hs0 h0
 
-/-! ### invariants of every history (monotone clock) -/
+/-- The close decision is exact also while the clock is up to `jumpBackLimit` behind the stamp: the idle
+    time measured on the clock is then 0 and the connection is not closed. -/
+theorem closeDecision_exact_smallJump (now : Nat) (c : Conn) (h1 : c.la ≤ now + jumpBackLimit) (h2 : now < 2 ^ 62)
+    (ht : c.tmo < 2 ^ 63) :
+    checkTimedOut now c = true ↔ c.suspended = false ∧ c.tmo ≠ 0 ∧ c.tmo < now - c.la :=
+  checkTimedOut_iff_jump now c h1 h2 ht
+
+/-! ### the clock of a history -/
+
+/-- Clock reading and displacement after a history are determined by the clock operations of the
+    history alone (forward steps, backward steps; a backward step below 0 is skipped) … -/
+theorem clock_displacement (cfg : Cfg) (ops : List Op) :
+    let d := run Variant.current (Daemon.init cfg) ops
+    (d.now, d.back) = ops.foldl clockStep (clock0, 0) :=
+  run_clock Variant.current ops (Daemon.init cfg)
+
+/-- … and `now + back` is the running maximum of the clock: `back` is how far the clock is behind the
+    highest value it has shown. -/
+theorem clock_highWater (p : Nat × Nat) (o : Op) :
+    (clockStep p o).1 + (clockStep p o).2 = max (p.1 + p.2) (clockStep p o).1 :=
+  clockStep_highWater p o
+
+/-! ### invariants of every history (any clock: forward and backward steps of any size) -/
 
 /-- The bookkeeping invariant (no list corruption, list membership consistent with timeout values and
-    suspended flags, stamps not in the future, default-timeout list ordered by last activity) holds after
-    every history of script operations that does not turn the clock back — any length, any number of
-    connections, both loops. -/
-theorem inv_reachable (cfg : Cfg) (hc : cfg.dtmo ≤ tmoMax) (ops : List Op) (hm : ∀ o, o ∈ ops → o.monotone) :
+    suspended flags, no stamp beyond the highest clock value shown, default-timeout list ordered by last
+    activity) holds after every history of script operations — any length, any number of connections,
+    both loops, the clock stepping forward and backward by any amounts. -/
+theorem inv_reachable (cfg : Cfg) (hc : cfg.dtmo ≤ tmoMax) (ops : List Op) :
     Inv (run Variant.current (Daemon.init cfg) ops) :=
-  inv_run current_is_repaired ops _ (inv_init cfg hc) hm
+  inv_run current_is_repaired ops _ (inv_init cfg hc)
 
 /-- `Sorted (≥) (normalList.map lastActivity)` in every reachable state (of a daemon that has a default
-    timeout; without one the order of that list is never looked at). -/
-theorem normalList_sorted (cfg : Cfg) (hc : cfg.dtmo ≤ tmoMax) (ops : List Op)
-    (hm : ∀ o, o ∈ ops → o.monotone) :
+    timeout; without one the order of that list is never looked at) — whatever the clock does: every
+    insertion of a connection stamped with the current time goes to its sorted position, which is the
+    head unless the clock has stepped back. -/
+theorem normalList_sorted (cfg : Cfg) (hc : cfg.dtmo ≤ tmoMax) (ops : List Op) :
     let d := run Variant.current (Daemon.init cfg) ops
     d.cfg.dtmo ≠ 0 → (d.normal.map d.la).Pairwise (· ≥ ·) := by
   intro d hd
   rw [List.pairwise_map]
-  exact ((inv_reachable cfg hc ops hm).sorted hd).imp (fun hab => hab)
+  exact ((inv_reachable cfg hc ops).sorted hd).imp (fun hab => hab)
 
 /-- No checked list operation ever fails (no `XDLL_remove` of an element that is not in the list). -/
-theorem no_list_corruption (cfg : Cfg) (hc : cfg.dtmo ≤ tmoMax) (ops : List Op) (hm : ∀ o, o ∈ ops → o.monotone) :
+theorem no_list_corruption (cfg : Cfg) (hc : cfg.dtmo ≤ tmoMax) (ops : List Op) :
     (run Variant.current (Daemon.init cfg) ops).fault = false :=
-  (inv_reachable cfg hc ops hm).nofault
+  (inv_reachable cfg hc ops).nofault
+
+/-- No stamp lies beyond the highest value the clock has shown: with the clock at most `jumpBackLimit`
+    behind that value every stamp is within the tolerance of `connection_check_timedout`. -/
+theorem stamps_within_tolerance (cfg : Cfg) (hc : cfg.dtmo ≤ tmoMax) (ops : List Op) :
+    let d := run Variant.current (Daemon.init cfg) ops
+    d.back ≤ jumpBackLimit → ∀ i, (d.c i).la ≤ d.now + jumpBackLimit := by
+  intro d hb i
+  have : (d.c i).la ≤ d.now + d.back := (inv_reachable cfg hc ops).laLe i
+  omega
 
 
 /-! ### exactness of a whole round -/
 
-/-- **Never closed while idle ≤ T, never while suspended.**  In every reachable state (monotone clock),
-    for the select and the epoll loop alike: a connection that a round closes for timeout was — when the
-    round began — not suspended, had a timeout T ≠ 0 and had been idle for more than T.  Connections
-    that are read, resumed or started in that round are therefore not closed by it. -/
-theorem round_closes_only_expired (cfg : Cfg) (hc : cfg.dtmo ≤ tmoMax) (ops : List Op)
-    (hm : ∀ o, o ∈ ops → o.monotone) :
+/-- **Never closed while idle ≤ T, never while suspended.**  In every state reached by a history whose
+    clock is — when the round begins — at most `jumpBackLimit` behind the highest value it has shown
+    (forward steps of any size and backward steps in any number and at any position before that), for
+    the select and the epoll loop alike: a connection that a round closes for timeout was — when the round
+    began — not suspended, had a timeout T ≠ 0 and had been idle for more than T on the clock
+    (`now - last_activity > T`; in particular the clock is past the stamp).  Connections that are
+    read, resumed or started in that round are therefore not closed by it. -/
+theorem round_closes_only_expired (cfg : Cfg) (hc : cfg.dtmo ≤ tmoMax) (ops : List Op) :
     let d := run Variant.current (Daemon.init cfg) ops
-    d.now < 2 ^ 63 → ∀ i aware, Event.tmoClose i aware ∈ (round Variant.current d).2 →
+    d.now < 2 ^ 62 → d.back ≤ jumpBackLimit → ∀ i aware, Event.tmoClose i aware ∈ (round Variant.current d).2 →
       (d.c i).suspended = false ∧ (d.c i).tmo ≠ 0 ∧ (d.c i).tmo < d.now - (d.c i).la := by
-  intro d hnow i aware hev
+  intro d hnow hback i aware hev
   have h := round_sound Variant.current d i aware hev
-  exact (checkTimedOut_iff d.now (d.c i) ((inv_reachable cfg hc ops hm).laLe i) hnow).1 h.2.2
+  have hI : Inv d := inv_reachable cfg hc ops
+  have hT : (d.c i).tmo < 2 ^ 63 := by have := hI.tmoB i; simp only [tmoMax, msPerSec] at this; omega
+  exact (checkTimedOut_iff_jump d.now (d.c i) (by have := hI.laLe i; omega) hnow hT).1 h.2.2
 
 /-- The same for ANY state, clock value and code variant, in terms of the close decision:
     a round closes for timeout only what `connection_check_timedout` accepts for the pre-round state. -/
@@ -126,19 +168,19 @@ theorem suspended_not_closed_by_round (v : Variant) (d : Daemon) (i : Id) (aware
     MHD_REQUEST_TERMINATED_TIMEOUT_REACHED reported iff the application has seen the request.
     This is where the order of the default-timeout list is needed: the loop stops scanning at the first
     connection that is not expired. -/
-theorem epoll_round_closes_every_expired (cfg : Cfg) (hc : cfg.dtmo ≤ tmoMax) (ops : List Op)
-    (hm : ∀ o, o ∈ ops → o.monotone) :
+theorem epoll_round_closes_every_expired (cfg : Cfg) (hc : cfg.dtmo ≤ tmoMax) (ops : List Op) :
     let d := run Variant.current (Daemon.init cfg) ops
-    d.cfg.epoll = true → d.now < 2 ^ 63 → ∀ i, i ∈ d.conns → (d.c i).closed = false →
+    d.cfg.epoll = true → d.now < 2 ^ 62 → d.back ≤ jumpBackLimit → ∀ i, i ∈ d.conns → (d.c i).closed = false →
       (d.c i).tmo ≠ 0 → (d.c i).tmo < d.now - (d.c i).la →
       Event.tmoClose i (d.c i).aware ∈ (round Variant.current d).2 := by
-  intro d he hnow i hi hcl h0 hidle
-  have h := inv_reachable cfg hc ops hm
+  intro d he hnow hback i hi hcl h0 hidle
+  have h : Inv d := inv_reachable cfg hc ops
+  have hT : (d.c i).tmo < 2 ^ 63 := by have := h.tmoB i; simp only [tmoMax, msPerSec] at this; omega
   have ht : checkTimedOut d.now (d.c i) = true :=
-    (checkTimedOut_iff d.now (d.c i) (h.laLe i) hnow).2 ⟨h.connsS i hi, h0, hidle⟩
+    (checkTimedOut_iff_jump d.now (d.c i) (by have := h.laLe i; omega) hnow hT).2 ⟨h.connsS i hi, h0, hidle⟩
   unfold round
   simp only [he, if_true]
-  exact roundEpoll_complete current_is_repaired h hnow i hi hcl ht
+  exact roundEpoll_complete current_is_repaired h hnow hback i hi hcl ht
 
 /-- **Closed in the first round after idle > T (select loop).**  For a select loop that saves
     `pos->prev` before it calls the handlers (`selectSavesPrev`, i.e. F10 repaired — the flag is probed on
@@ -146,16 +188,17 @@ theorem epoll_round_closes_every_expired (cfg : Cfg) (hc : cfg.dtmo ≤ tmoMax) 
     that has been idle for more than its timeout and whose socket has nothing to read is closed for
     timeout by the very next round.  (A connection with readable data is read first — that is activity.) -/
 theorem select_round_closes_every_expired (hsp : Variant.current.savePrev = true)
-    (cfg : Cfg) (hc : cfg.dtmo ≤ tmoMax) (ops : List Op) (hm : ∀ o, o ∈ ops → o.monotone) :
+    (cfg : Cfg) (hc : cfg.dtmo ≤ tmoMax) (ops : List Op) :
     let d := run Variant.current (Daemon.init cfg) ops
-    d.cfg.epoll = false → d.now < 2 ^ 63 → ∀ i, i ∈ d.conns → (d.c i).closed = false →
+    d.cfg.epoll = false → d.now < 2 ^ 62 → d.back ≤ jumpBackLimit → ∀ i, i ∈ d.conns → (d.c i).closed = false →
       (d.c i).unread = false → (d.c i).peerClosed = false →
       (d.c i).tmo ≠ 0 → (d.c i).tmo < d.now - (d.c i).la →
       Event.tmoClose i (d.c i).aware ∈ (round Variant.current d).2 := by
-  intro d he hnow i hi hcl hu hp h0 hidle
-  have h := inv_reachable cfg hc ops hm
+  intro d he hnow hback i hi hcl hu hp h0 hidle
+  have h : Inv d := inv_reachable cfg hc ops
+  have hT : (d.c i).tmo < 2 ^ 63 := by have := h.tmoB i; simp only [tmoMax, msPerSec] at this; omega
   have ht : checkTimedOut d.now (d.c i) = true :=
-    (checkTimedOut_iff d.now (d.c i) (h.laLe i) hnow).2 ⟨h.connsS i hi, h0, hidle⟩
+    (checkTimedOut_iff_jump d.now (d.c i) (by have := h.laLe i; omega) hnow hT).2 ⟨h.connsS i hi, h0, hidle⟩
   unfold round
   simp only [he, Bool.false_eq_true, if_false]
   exact roundSelect_complete current_is_repaired hsp h i hi hcl ⟨hu, hp⟩ ht
@@ -192,49 +235,122 @@ theorem override_immediate (d : Daemon) (i : Id) (s : Nat) :
 
 /-- … and a live connection is on the timeout list that is consulted for that value. -/
 theorem override_list_migration (cfg : Cfg) (hc : cfg.dtmo ≤ tmoMax) (ops : List Op)
-    (hm : ∀ o, o ∈ ops → o.monotone) (i : Id) (s : Nat) (hs : s ≤ 4000000) :
+    (i : Id) (s : Nat) (hs : s ≤ 4000000) :
     let d := run Variant.current (Daemon.init cfg) ops
     i ∈ d.conns →
       (i ∈ (setTimeout Variant.current d i s).normal ↔ s * msPerSec = d.cfg.dtmo) ∧
       (i ∈ (setTimeout Variant.current d i s).manual ↔ s * msPerSec ≠ d.cfg.dtmo) := by
   intro d hi
-  exact setTimeout_list current_is_repaired (inv_reachable cfg hc ops hm) i s hi hs
+  exact setTimeout_list current_is_repaired (inv_reachable cfg hc ops) i s hi hs
 
 /-- Resume restarts the timer. -/
-theorem resume_restarts_timer (d : Daemon) (i : Id) (hr : (d.c i).resuming = true) :
-    ((resumeOne d i).c i).suspended = false ∧ ((resumeOne d i).c i).tmo = (d.c i).tmo ∧
-    ((d.c i).tmo ≠ 0 → ((resumeOne d i).c i).la = d.now) :=
-  resumeOne_restarts d i hr
+theorem resume_restarts_timer (v : Variant) (d : Daemon) (i : Id) (hr : (d.c i).resuming = true) :
+    ((resumeOne v d i).c i).suspended = false ∧ ((resumeOne v d i).c i).tmo = (d.c i).tmo ∧
+    ((d.c i).tmo ≠ 0 → ((resumeOne v d i).c i).la = d.now) :=
+  resumeOne_restarts v d i hr
 
 /-! ### the sleep hint in every reachable state -/
 
-/-- `hint ≤ earliestDeadline − now + 100 ms`: for every connection in a timeout list that has a
-    timeout, the hint does not exceed the time left to its deadline plus the granularity, and the hint
-    is 0 once a deadline has passed. -/
-theorem hint_le_earliest_deadline (cfg : Cfg) (hc : cfg.dtmo ≤ tmoMax) (ops : List Op)
-    (hm : ∀ o, o ∈ ops → o.monotone) :
+/-- `hint ≤ earliestDeadline − now + 100 ms`, small backward clock jumps included: in every state whose
+    clock is at most `jumpBackLimit` behind the highest value it has shown, for every connection in a
+    timeout list that has a timeout, the hint does not exceed the time left to its deadline
+    (`last_activity + T - now`) plus the granularity, and the hint is 0 once a deadline has passed. -/
+theorem hint_le_earliest_deadline (cfg : Cfg) (hc : cfg.dtmo ≤ tmoMax) (ops : List Op) :
     let d := run Variant.current (Daemon.init cfg) ops
-    d.now < 2 ^ 62 → ∀ hh, hint Variant.current d = some hh →
+    d.now + jumpBackLimit < 2 ^ 62 → d.back ≤ jumpBackLimit → ∀ hh, hint Variant.current d = some hh →
       ∀ i, i ∈ d.normal ∨ i ∈ d.manual → (d.c i).tmo ≠ 0 →
         hh ≤ ((d.c i).la + (d.c i).tmo - d.now) + granularity ∧
         ((d.c i).la + (d.c i).tmo < d.now → hh = 0) := by
-  intro d hnow hh heq i hi hti
-  exact hint_bound current_is_repaired.2.2.2 (inv_reachable cfg hc ops hm) hnow hh heq i hi hti
+  intro d hnow hback hh heq i hi hti
+  have hI : Inv d := inv_reachable cfg hc ops
+  exact hint_bound current_is_repaired.2.2.2.1 hI (by omega) hback hh heq i hi hti
 
 /-- `MHD_get_timeout64` answers "no timeout" only when nothing is pending and no connection in a
     timeout list has a timeout. -/
-theorem hint_none_only_when_idle (cfg : Cfg) (hc : cfg.dtmo ≤ tmoMax) (ops : List Op)
-    (hm : ∀ o, o ∈ ops → o.monotone) :
+theorem hint_none_only_when_idle (cfg : Cfg) (hc : cfg.dtmo ≤ tmoMax) (ops : List Op) :
     let d := run Variant.current (Daemon.init cfg) ops
-    d.now < 2 ^ 62 → hint Variant.current d = none →
+    d.now + d.back < 2 ^ 62 → hint Variant.current d = none →
       pending d = false ∧ ∀ i, i ∈ d.normal ∨ i ∈ d.manual → (d.c i).tmo = 0 := by
   intro d hnow heq
-  exact hint_none current_is_repaired.2.2.2 (inv_reachable cfg hc ops hm) hnow heq
+  exact hint_none current_is_repaired.2.2.2.1 (inv_reachable cfg hc ops) hnow heq
 
 /-- The hint is 0 whenever work is already pending (data_already_pending, a non-empty cleanup list,
     a resume request, queued new connections, a non-empty eready list) — every state, every variant. -/
 theorem hint_zero_when_pending (v : Variant) (d : Daemon) (hp : pending d = true) : hint v d = some 0 :=
   hint_pending v d hp
+
+/-! ### what the event loops and the legacy API make of the hint (every `uint64_t` value, every cap) -/
+
+/-- No wrapper or loop-internal conversion of a hint `u` yields a wait longer than `u`, and none yields
+    a negative one: MHD_get_timeout64s, MHD_get_timeout_i, get_timeout_millisec_ and
+    get_timeout_millisec_int (cap `maxT`, -1 = none; used by MHD_poll_all and MHD_epoll), the poll timeout
+    of thread_main_handle_connection. -/
+theorem conversions_never_longer (u : Nat) (maxT : Int) (hm : -1 ≤ maxT) (hM : maxT ≤ intMax) :
+    (0 ≤ getTimeout64s (some u) ∧ getTimeout64s (some u) ≤ u) ∧
+    (0 ≤ getTimeoutI (some u) ∧ getTimeoutI (some u) ≤ u ∧ getTimeoutI (some u) ≤ intMax) ∧
+    (0 ≤ getTimeoutMillisec (some u) maxT ∧ getTimeoutMillisec (some u) maxT ≤ u) ∧
+    (0 ≤ getTimeoutMillisecInt (some u) maxT ∧ getTimeoutMillisecInt (some u) maxT ≤ u ∧
+      getTimeoutMillisecInt (some u) maxT ≤ intMax ∧ (0 ≤ maxT → getTimeoutMillisecInt (some u) maxT ≤ maxT)) ∧
+    (0 ≤ tpcPoll u ∧ tpcPoll u ≤ u ∧ tpcPoll u ≤ intMax) := by
+  have a := getTimeout64s_spec u
+  have b := getTimeoutI_spec u
+  have c := getTimeoutMillisec_spec u maxT hm hM
+  have e := getTimeoutMillisecInt_spec u maxT hm hM
+  have f := tpcPoll_spec u
+  exact ⟨⟨a.1, a.2.1⟩, ⟨b.1, b.2.1, b.2.2.1⟩, ⟨c.1, c.2.1⟩, ⟨e.1, e.2.1, e.2.2.1, e.2.2.2.1⟩, ⟨f.1, f.2.1, f.2.2.1⟩⟩
+
+/-- The legacy wrappers are exact with respect to MHD_get_timeout64: `MHD_get_timeout` returns the same
+    value (and MHD_NO together with it), `MHD_get_timeout64s` / `MHD_get_timeout_i` return it whenever it
+    fits the type and -1 exactly for MHD_NO. -/
+theorem legacy_wrappers_exact (u : Nat) (hu : u < W) :
+    getTimeoutULL (some u) = some u ∧ getTimeoutULL none = none ∧
+    ((u : Int) ≤ int64Max → getTimeout64s (some u) = u) ∧ getTimeout64s none = -1 ∧
+    ((u : Int) ≤ intMax → getTimeoutI (some u) = u) ∧ getTimeoutI none = -1 :=
+  ⟨(getTimeoutULL_spec u hu).1, (getTimeoutULL_spec u hu).2, (getTimeout64s_spec u).2.2.2, getTimeoutI_none.2,
+   (getTimeoutI_spec u).2.2.2, getTimeoutI_none.1⟩
+
+/-- The poll / epoll_wait timeout of the internal loops is the hint itself when it fits an `int` and no
+    cap is lower, and the cap (or -1 = indefinitely) when there is no hint. -/
+theorem loop_timeout_exact (u : Nat) (maxT : Int) (hm : -1 ≤ maxT) (hM : maxT ≤ intMax) :
+    ((u : Int) ≤ intMax → (maxT = -1 ∨ (u : Int) ≤ maxT) → maxT ≠ 0 → getTimeoutMillisecInt (some u) maxT = u) ∧
+    getTimeoutMillisecInt none maxT = maxT :=
+  ⟨(getTimeoutMillisecInt_spec u maxT hm hM).2.2.2.2, getTimeoutMillisecInt_none maxT hM⟩
+
+/-- MHD_select: the value put into the `struct timeval` never exceeds the hint (nor a positive cap), and
+    the timeval denotes it exactly — every `uint64_t`. -/
+theorem select_timeval_exact (u : Nat) (hu : u < W) (millisec : Int) :
+    ∃ t, selectTmo (some u) millisec = some t ∧ t ≤ u ∧ (0 < millisec → (t : Int) ≤ millisec) ∧
+      0 ≤ (selectTv t).1 ∧ 0 ≤ (selectTv t).2 ∧ (selectTv t).2 < 1000000 ∧
+      (selectTv t).1 * 1000 + (selectTv t).2 / 1000 = t := by
+  obtain ⟨t, h1, h2, h3, _⟩ := selectTmo_spec u millisec
+  have := selectTv_exact t (Nat.lt_of_le_of_lt h2 hu)
+  exact ⟨t, h1, h2, h3, this⟩
+
+/-- thread_main_handle_connection: the timeval denotes the remaining time exactly for every value below
+    2^63 ms (the API admits timeouts up to `UINT64_MAX / 4000 - 1` s only) … -/
+theorem thread_timeval_exact (ms : Nat) (h : ms < 9223372036854775808) :
+    0 ≤ (tpcTv ms).1 ∧ 0 ≤ (tpcTv ms).2 ∧ (tpcTv ms).2 < 1000000 ∧
+    (tpcTv ms).1 * 1000 + (tpcTv ms).2 / 1000 = ms :=
+  tpcTv_exact ms h
+
+/-- … and beyond that the cast-before-division makes `tv_sec` negative (select fails), never longer. -/
+theorem thread_timeval_huge_negative (ms : Nat) (h1 : 9223372036854775808 + 1000 ≤ ms) (h2 : ms + 1000 ≤ W) :
+    (tpcTv ms).1 < 0 :=
+  tpcTv_huge ms h1 h2
+
+/-- **The wait of the internal loops never exceeds the earliest deadline + granularity**: in every
+    reachable state with a small clock displacement, whatever cap the loop passes. -/
+theorem loop_wait_le_earliest_deadline (cfg : Cfg) (hc : cfg.dtmo ≤ tmoMax) (ops : List Op)
+    (maxT : Int) (hm : -1 ≤ maxT) (hM : maxT ≤ intMax) :
+    let d := run Variant.current (Daemon.init cfg) ops
+    d.now + jumpBackLimit < 2 ^ 62 → d.back ≤ jumpBackLimit → ∀ hh, hint Variant.current d = some hh →
+      ∀ i, i ∈ d.normal ∨ i ∈ d.manual → (d.c i).tmo ≠ 0 →
+        getTimeoutMillisecInt (some hh) maxT ≤ (((d.c i).la + (d.c i).tmo - d.now) + granularity : Nat) := by
+  intro d hnow hback hh heq i hi hti
+  have h1 : hh ≤ ((d.c i).la + (d.c i).tmo - d.now) + granularity :=
+    (hint_le_earliest_deadline cfg hc ops hnow hback hh heq i hi hti).1
+  have h2 := (getTimeoutMillisecInt_spec hh maxT hm hM).2.1
+  exact Int.le_trans h2 (Int.ofNat_le.2 h1)
 
 /-! ### witnesses: what the unrepaired code does (kernel-checked by evaluation of the model) -/
 
@@ -262,7 +378,7 @@ theorem asIs_F11_epoll_expired_not_closed :
 
 /-- … whereas the repaired insertion keeps the list sorted, gives the hint 6000 and closes A in that round. -/
 theorem repaired_F11 :
-    let v : Variant := ⟨true, true, true, true, false⟩
+    let v : Variant := ⟨true, true, true, true, false, true⟩
     let d := run v (Daemon.init (cfgT10 true)) f11History
     d.normal = [1, 0] ∧ hint v d = some 6000 ∧
     (round v (run v d [.round, .tick 6500])).2 = [Event.tmoClose 0 false] := by
@@ -291,6 +407,49 @@ theorem asIs_F11d_hint_skips_expired :
     hint Variant.asIs d = some 7000 := by
   decide
 
+/-- the history of F11e: both connections are active, the clock steps back by 300 ms (well inside the
+    5000 ms tolerance), then the older one of the two is active again -/
+def f11eHistory : List Op :=
+  [.arrive 0, .arrive 1, .round, .tick 1000, .send 0, .round, .tickback 300, .send 1, .round, .tick 1000]
+
+/-- the tree with every earlier repair but head insertion of freshly stamped connections -/
+def preF11e : Variant := ⟨true, true, true, true, true, false⟩
+
+/-- F11e: after a small backward jump the freshly stamped connection 1 is put in front of connection 0
+    whose stamp is younger: the list is not sorted, and the hint (9300 ms) exceeds the time left to
+    connection 1's deadline (9000 ms) by more than the granularity. -/
+theorem asIs_F11e_jump_breaks_order :
+    let d := run preF11e (Daemon.init (cfgT10 true)) f11eHistory
+    d.back ≤ jumpBackLimit ∧ d.normal = [1, 0] ∧ (d.c 1).la < (d.c 0).la ∧
+    hint preF11e d = some 9300 ∧ (d.c 1).la + (d.c 1).tmo - d.now = 9000 := by
+  decide
+
+/-- F11e in epoll mode: 9001 ms later connection 1 has been idle for 10001 ms > 10 s, but the round does
+    not close it (the scan stops at connection 0, the tail, which is not expired) … -/
+theorem asIs_F11e_epoll_expired_not_closed :
+    let d := run preF11e (Daemon.init (cfgT10 true)) (f11eHistory ++ [.tick 9001])
+    d.back ≤ jumpBackLimit ∧ (d.c 1).tmo < d.now - (d.c 1).la ∧ (round preF11e d).2 = [] := by
+  decide
+
+/-- … whereas the sorted insertion keeps the order, gives the hint 9000 and closes connection 1 in that
+    round. -/
+theorem repaired_F11e :
+    let v : Variant := ⟨true, true, true, true, true, true⟩
+    let d := run v (Daemon.init (cfgT10 true)) f11eHistory
+    d.normal = [0, 1] ∧ hint v d = some 9000 ∧
+    (round v (run v d [.tick 9001])).2 = [Event.tmoClose 1 true] := by
+  decide
+
+/-- The boundary of "small": with the clock more than `jumpBackLimit` behind the highest value it has
+    shown (here two steps of 3000 ms) the code's own rule ("too large jump back") closes a connection
+    whose idle time on the clock is 0 — the hypothesis `back ≤ jumpBackLimit` of
+    `round_closes_only_expired` cannot be dropped. -/
+theorem largeDisplacement_closes_idle :
+    let v : Variant := ⟨true, true, true, true, true, true⟩
+    let d := run v (Daemon.init (cfgT10 false)) [.arrive 0, .round, .tickback 3000, .tickback 3000]
+    d.back = 6000 ∧ d.now - (d.c 0).la = 0 ∧ (round v d).2 = [Event.tmoClose 0 false] := by
+  decide
+
 /-! ### non-vacuity -/
 
 /-- a reachable state with a suspended connection, one on the manual list and one on the normal list
@@ -300,11 +459,26 @@ example :
       [.arrive 0, .arrive 1, .arrive 2, .round, .send 0, .send 1, .round, .setTimeout 1 7, .susp 0, .send 0,
        .tick 500, .round, .tick 2500, .round]
     Inv d ∧ d.susp = [0] ∧ d.manual = [1] ∧ d.normal = [2] ∧ hint Variant.current d = some 4000 := by
-  refine ⟨inv_reachable _ (by decide) _ (by decide), ?_⟩
+  refine ⟨inv_reachable _ (by decide) _, ?_⟩
+  decide
+
+/-- a reachable state after backward jumps at three positions (cumulated 4999 ms behind the high-water
+    mark at the end): the hypotheses of the history theorems hold, the list is sorted although
+    connection 1 was stamped after the jumps, and the hint is exact -/
+example :
+    let d := run Variant.current (Daemon.init (cfgT10 true))
+      [.arrive 0, .arrive 1, .round, .tick 6000, .send 0, .round, .tickback 2000, .send 1, .round, .tickback 2999,
+       .tick 1000, .tickback 1000]
+    d.now < 2 ^ 62 ∧ d.back ≤ jumpBackLimit ∧ d.back = 4999 ∧ d.normal = [0, 1] ∧ (d.c 1).la < (d.c 0).la ∧
+    d.now < (d.c 1).la ∧ hint Variant.current d = some 100 := by
   decide
 
 example : ∃ now c, c.la ≤ now ∧ now < 2 ^ 63 ∧ checkTimedOut now c = true :=
   ⟨20001, { la := 10000, tmo := 10000 }, by decide, by decide, by decide⟩
+
+example : getTimeoutMillisecInt (some 18446744073709551615) (-1) = 2147483647 ∧ getTimeoutMillisecInt (some 7000) 250 = 250 ∧
+    getTimeoutI (some 4294967296) = 2147483647 ∧ selectTv 18446744073709551615 = (18446744073709551, 615000) ∧
+    tpcTv 9999 = (9, 999000) := by decide
 
 example : ∃ now c, now < c.la ∧ c.la - now ≤ jumpBackLimit ∧ c.la < W ∧ c.tmo < 2 ^ 63 ∧ getWait now c = 100 :=
   ⟨1000, { la := 6000, tmo := 10000 }, by decide, by decide, by decide, by decide, by decide⟩
